@@ -62,6 +62,10 @@ type G struct {
 func (g *G) Emit(op J, tags ...string)     { g.emit(Case{Op: op, Tags: tags}) }
 func (g *G) EmitImpl(op J, tags ...string) { g.emit(Case{Op: op, Tags: tags, ModelSkip: true}) }
 func (g *G) Thorough() bool                { return g.Tier == "thorough" }
+
+// Lite: the race pass (a race-instrumented build is several times slower): the few directed cases that are
+// megabytes large are left to the main pass
+func (g *G) Lite() bool { return os.Getenv("VERIF_LITE") != "" }
 func (g *G) N(quick, thorough int) int {
 	if g.Thorough() {
 		return thorough
